@@ -110,7 +110,8 @@ def wrapper_compare(ctx, prog, wrappers, o):
         W = {"k": "with", "spec": W, "P": P, "force": force}
     wprog = {"datasets": prog["datasets"], "root": W}
     o2 = stack_options(wrappers, o)
-    Gw, Gx = build(wprog), build(prog)
+    # (user bodies edit their own arguments in place: every evaluation must have handed them private copies)
+    Gw, Gx = build(wprog, mutate_args=True), build(prog, mutate_args=True)
     wit = {"kind": "wrapper", "program": prog, "wrappers": wrappers, "options": o, "overlaid": o2}
     a = outcomes(ctx, Gw, Gw.root, o, wit)
     if a is None:
@@ -164,7 +165,7 @@ def preset_compare(ctx, prog, did, o):
     bare = copy.deepcopy(prog)
     P, D = bare["datasets"][did].pop("options"), bare["datasets"][did].pop("default_options")
     o2 = U.overlay(U.overlay(D, o), P)
-    Gw, Gx = build(prog), build(bare)
+    Gw, Gx = build(prog, mutate_args=True), build(bare, mutate_args=True)
     wit = {"kind": "dataset-presets", "program": prog, "dataset": did, "options": o, "overlaid": o2}
     a = outcomes(ctx, Gw, Gw.root, o, wit)
     if a is None:
